@@ -60,7 +60,7 @@ namespace pure {
     __attribute__((noinline, cold)) inline void split_fail( SplitPolicy const& pol, const uint8_t* bytes, const unsigned* w, unsigned nw, bool safe, unsigned idx, unsigned pos, unsigned req, unsigned eff,
                                                              const char* what, uint64_t got, uint64_t exp, SeqAcc& A )
     {
-        ++A.failed;
+        if ( ++A.failed > 40 ) { suppressed().fetch_add( 1, std::memory_order_relaxed ); return; }     // this suite has reported enough
         std::string key = split_key( pol, safe, pos, req, eff, what );
         if ( !report_wanted( "C25", key )) return;
         std::string ws = "[";
@@ -175,6 +175,7 @@ namespace pure {
         uint8_t* raw;
         SeqAcc acc;
         std::unordered_set<uint64_t> fps;
+        uint64_t fp_dropped = 0;
         std::string sample;
 
         explicit SplitSuite( SplitPolicy const& p ) : pol( p )
@@ -189,7 +190,7 @@ namespace pure {
             bool ok = run_seq<Splitter, Source>( pol, *src, raw, w, nw, safe, acc );
             uint64_t h = safe ? 0x5afe : 0xc07;
             for ( unsigned i = 0; i < nw; ++i ) h = mix64( h ^ w[i] );
-            fps.insert( h );
+            if ( fps.size() < 120000 ) fps.insert( h ); else ++fp_dropped;      // keep the per-property fingerprint set below its cap
             if ( ok && sample.empty() && nw >= 3 && nw <= 8 && raw[0] != 0 && raw[0] != 0xff ) {
                 std::string ws = "[", fs = "[";
                 unsigned pos = 0;
@@ -285,6 +286,7 @@ namespace pure {
             ps.add_extra( "splitter_sequences", acc.sequences );
             ps.add_extra( "splitter_cut_calls", acc.cuts );
             ps.add_extra( "splitter_sequences_failed", acc.failed );
+            ps.add_extra( "splitter_sequence_fingerprints_not_recorded(per-suite cap 120000)", fp_dropped );
             ps.add_variant( variant, acc.sequences );
             if ( !sample.empty() && ps.need_sample( 8 ) && pol.nbits == 64 ) ps.add_sample( sample, 8 );
         }
@@ -321,6 +323,7 @@ namespace pure {
         // widths whose mask computation is UB are found in forked probes, reported, and kept out of the in-process run
         for ( unsigned w = 31; w < p.nbits; ++w ) {
             if ( !p.ok[w] ) continue;
+            if ( !probe_selected( w )) { p.ok[w] = 0; continue; }      // not probed => not used in this (sanitized, quick) run
             ProbeResult pr = ub_probe( [w]() {
                 volatile Int v = Int( 0x5A5A5A5AA5A5A5A5ull );
                 S s( v );
